@@ -147,7 +147,8 @@ def run_one(module, case, res, known_preds, case_timeout, reraise=True):
         key = out.get("key") or khash(case)
         if key not in res.keys:
             res.keys.add(key)
-            if len(res.samples) < 3:
+            # samples: the first non-trivial case of the shard (Hypothesis starts small) and two later ones
+            if len(res.keys) in (1, 20, 60) and len(res.samples) < 3:
                 res.samples.append(out.get("sample", case))
     return "ok"
 
@@ -326,8 +327,9 @@ def main(argv=None):
         tot.keys.update(r["keys"])
         tot.timeouts += r["timeouts"]
         tot.stopped_by_budget |= r["stopped_by_budget"]
-        for s in r["samples"]:
-            if len(tot.samples) < 5:
+        for k_, s in enumerate(r["samples"]):
+            # one small and several typical cases
+            if len(tot.samples) < 5 and (k_ > 0 or not tot.samples):
                 tot.samples.append(s)
         for kind, v in r["violations"].items():
             cur = tot.violations.get(kind)
